@@ -21,6 +21,12 @@ TS_EXPORTED = ["2006-01-02", "15:04:05Z07:00", "15:04:05.000000Z07:00", "2006-01
                "2006-01-02T15:04:05.000000Z07:00", "2006-01-02T15:04:05.999999999Z07:00"]
 
 
+# another process environment the library must not care about (DEBUG only selects the start-up level, which
+# every behaviour sets itself)
+ALT_ENV = {"DEBUG": "1", "NO_COLOR": "1", "CLICOLOR": "0", "LANG": "C", "LC_ALL": "C", "TERM": "dumb", "GOMAXPROCS": "1",
+           "TZ": "Pacific/Chatham", "VERBOSE": "1", "TRACE": "1", "HOME": "/nonexistent-home", "COLUMNS": "20"}
+
+
 def consts_for_tlc(c):
     """Python config -> constants of LoggCore."""
     return dict(
@@ -224,7 +230,7 @@ def mc_only(ctx, c, invariants, properties, name="core-mc-only", timeout=1500):
 
 
 def run_core(ctx, c, invariants, properties, obs, rand_count, rand_depth, rand_loggers, testing=True,
-             dump=True, key_fn=None, max_len=60, rand_cfg=None, tag=""):
+             dump=True, key_fn=None, max_len=60, rand_cfg=None, tag="", alt_env=True):
     tc = consts_for_tlc(c)
     # ---- 1. exhaustive model check with graph dump
     mc, cfg = gen_mc("MC", "LoggCore", tc,
@@ -267,41 +273,58 @@ def run_core(ctx, c, invariants, properties, obs, rand_count, rand_depth, rand_l
                   reg_calls=[dict(v=x["v"], t=x.get("t", -1), e=bool(x.get("e")), clash=bool(x.get("clash")))
                              for x in rc.get("reg_calls", [])], proc_per=bool(rc.get("reg_calls")),
                   ts_layouts=sorted(set(x for x in rc["layouts"] if x) | set(TS_EXPORTED)))
-    sp = os.path.join(ctx.scratch, "script.json")
-    with open(sp, "w") as fh:
-        json.dump(script, fh)
-    tp = os.path.join(ctx.scratch, "trace.ndjson")
-    # ---- 3. execute on the real library
-    ctx.run_worker(["core", sp, tp], testing=testing, timeout=1800)
-    rows = read_ndjson(tp)
-    # ---- 4. validate with TLC
-    bad = validate_core_trace(ctx, rc, tp, rand_loggers, name="core-trace" + tag)
-    # map bad lines to behaviours
-    starts = [i for i, r_ in enumerate(rows) if r_["op"] == "Reset"]
-    nontrivial = set()
-    for r_ in rows:
-        if r_["op"] != "Reset":
-            nontrivial.add((r_["op"], r_["k"], r_["a"], r_["b"], r_["l"], r_.get("mc", ""), tuple(r_.get("args", []))))
-    ctx.evaluations += len(rows) - len(starts)
-    ctx.traces += len(starts)
-    ctx.nontrivial += len(nontrivial)
-    for b in bad:
-        line = b["line"] - 1          # TLA+ sequences are 1-based
-        bi = max(j for j, s in enumerate(starts) if s <= line)
-        beh = behaviours[bi]
-        upto = line - starts[bi]
-        ev = rows[line]
-        head = "after %d call(s), %s(l=%s,k=%s,a=%s,b=%s): " % (upto - 1, ev["op"], ev["l"], ev["k"], ev["a"], ev["b"])
-        rp = dict(kind="core", script={**script, "behaviours": [beh[:upto]]}, observed=ev,
-                  expected=b["expected"], source="edge-cover" if bi < n_cover else "random")
-        pairs = key_fn(ev, b) if key_fn else None
-        if not pairs:
-            pairs = [("%s:%s" % (ev["op"], ev["k"]),
-                      "observed %s ; model expected %s" % (
-                          json.dumps({k: v for k, v in ev.items() if k not in ("op", "l", "k", "a", "b")})[:1500],
-                          b["expected"][:1500]))]
-        for key, what in pairs:
-            ctx.finding(key, head + what, rp)
+    def execute(behs, n_cov, env, label):
+        """3. execute on the real library (in the given process environment), 4. validate with TLC, report."""
+        scr = dict(script, behaviours=behs)
+        sp = os.path.join(ctx.scratch, "script%s.json" % label)
+        with open(sp, "w") as fh:
+            json.dump(scr, fh)
+        tp = os.path.join(ctx.scratch, "trace%s.ndjson" % label)
+        ctx.run_worker(["core", sp, tp], testing=testing, timeout=1800, env=env)
+        rows = read_ndjson(tp)
+        bad = validate_core_trace(ctx, rc, tp, rand_loggers, name="core-trace" + tag + label)
+        # map bad lines to behaviours
+        starts = [i for i, r_ in enumerate(rows) if r_["op"] == "Reset"]
+        nontrivial = set()
+        for r_ in rows:
+            if r_["op"] != "Reset":
+                nontrivial.add((r_["op"], r_["k"], r_["a"], r_["b"], r_["l"], r_.get("mc", ""), tuple(r_.get("args", []))))
+        ctx.evaluations += len(rows) - len(starts)
+        ctx.traces += len(starts)
+        if not env:
+            ctx.nontrivial += len(nontrivial)
+        for b in bad:
+            line = b["line"] - 1          # TLA+ sequences are 1-based
+            bi = max(j for j, s in enumerate(starts) if s <= line)
+            beh = behs[bi]
+            upto = line - starts[bi]
+            ev = rows[line]
+            head = "%safter %d call(s), %s(l=%s,k=%s,a=%s,b=%s): " % (
+                "in a process started with %s: " % " ".join("%s=%s" % kv for kv in sorted(env.items())) if env else "",
+                upto - 1, ev["op"], ev["l"], ev["k"], ev["a"], ev["b"])
+            rp = dict(kind="core", script={**scr, "behaviours": [beh[:upto]]}, observed=ev,
+                      expected=b["expected"], source="edge-cover" if bi < n_cov else "random", env=env or {})
+            pairs = key_fn(ev, b) if key_fn else None
+            if not pairs:
+                pairs = [("%s:%s" % (ev["op"], ev["k"]),
+                          "observed %s ; model expected %s" % (
+                              json.dumps({k: v for k, v in ev.items() if k not in ("op", "l", "k", "a", "b")})[:1500],
+                              b["expected"][:1500]))]
+            for key, what in pairs:
+                ctx.finding(key, head + what, rp)
+        return rows, bad
+
+    rows, bad = execute(behaviours, n_cover, None, "")
+    if alt_env and behaviours:
+        # the same model under another process environment: nothing the properties speak about may depend on
+        # environment variables, the number of processors or the local time zone.  A sample of the graph
+        # behaviours plus all random ones.
+        step = max(1, n_cover // 150)
+        sub = behaviours[:n_cover:step] + behaviours[n_cover:]
+        rows2, bad2 = execute(sub, len(behaviours[:n_cover:step]), dict(ALT_ENV), "-env")
+        ctx.extra["alt_env_behaviours" + tag] = len(sub)
+        ctx.extra["alt_env_events" + tag] = len(rows2)
+        bad = bad + bad2
     if rows:
         ctx.sample(dict(behaviour=[e for e in behaviours[0][:6]], first_observation=rows[1] if len(rows) > 1 else None))
         if len(behaviours) > n_cover:
@@ -321,7 +344,7 @@ def replay_core(ctx, path, c, obs):
     with open(sp, "w") as fh:
         json.dump(script, fh)
     tp = os.path.join(ctx.scratch, "trace.ndjson")
-    ctx.run_worker(["core", sp, tp], testing=True, timeout=600)
+    ctx.run_worker(["core", sp, tp], testing=True, timeout=600, env=rp.get("env") or None)
     rows = read_ndjson(tp)
     bad = validate_core_trace(ctx, c, tp, 64)
     ctx.traces += 1
